@@ -15,6 +15,7 @@ instance a `map[string]bool` in `printer`) does.
 -/
 import AvoVerif.Props.C17
 import AvoVerif.Gen.MapRanges
+import AvoVerif.Gen.Globals
 namespace Avo.Determinism
 
 /-- The map types whose enumeration order is covered by a theorem, with the theorem:
@@ -50,5 +51,118 @@ theorem mapIterTypes_nonempty : Avo.Gen.mapIterTypes ≠ [] ∧ Avo.Gen.mapIterS
 printed text is a function of the compiled file (used by `C17Pipeline`: `render` is a function). -/
 theorem only_pass_and_reg_enumerate_maps :
     ∀ x ∈ Avo.Gen.mapIterTypes, x.1 = "pass" ∨ x.1 = "reg" := by decide
+
+/-! ## Process-level mutable state (`Gen.Globals`)
+
+A generation may depend on what happened earlier in the process without any map being enumerated:
+through memory that outlives a generation.  `Gen.Globals` is a go/ssa census (regenerated on every
+run) of every way in which memory reachable from a package-level variable of the generation path
+can be written — or handed to code that could write it — by a function that can run after package
+initialisation (see harness/gen_globals.go for the analysis).  The obligation below is an inclusion
+of the set of (variable, event) rows in what is known and explained here; names of functions and
+positions are not compared, so moving or renaming code does not break it, while the first write to
+(or escape of) a package-level object that had none does. -/
+
+/-- event: (kind, package, name) -/
+abbrev Ev := String × String × String
+
+/-- Packages of the standard library none of whose functions writes through an argument or keeps
+one (trusted facts about the standard library). -/
+def purePkgs : List String :=
+  ["strings", "strconv", "errors", "unicode", "unicode/utf8", "math", "math/bits", "path", "path/filepath"]
+
+/-- Single functions and interface methods that only read their arguments. -/
+def readOnlyExterns : List (String × String) :=
+  [("fmt", "Sprintf"), ("fmt", "Sprint"), ("fmt", "Sprintln"), ("fmt", "Errorf"),
+   ("invoke", "error.Error"), ("invoke", "fmt.Stringer.String"),
+   ("invoke", "types.Sizes.Sizeof"), ("invoke", "types.Sizes.Offsetsof"), ("invoke", "types.Sizes.Alignof")]
+
+/-- An event that cannot change what a later generation sees: a read by the standard library, or
+handing a value to a function value that no function of avo can be (a callback of the user). -/
+def benignEvent (e : Ev) : Bool :=
+  e.1 == "extern" && (e.2.1 == "dynamic" || purePkgs.contains e.2.1 || readOnlyExterns.contains (e.2.1, e.2.2))
+
+/-- Variables that ARE the input of a generation: the package-level build context is the program under
+construction (the determinism statement is about fresh contexts; the measured stream swaps a fresh
+context in), `build.flags` are the command-line flags of `build.Generate`. -/
+def designState : List (String × String) := [("build", "ctx"), ("build", "flags")]
+
+/-- `pass.Compile` / `pass.Verify` are lists of passes behind the interface `pass.Interface`; the analysis
+resolves `p.Execute(f)` to every implementation (also `(*pass.Output).Execute`, which is never an element
+of these lists), so every write of a printer shows up under them.  What is required of them is that the
+variable itself and the list it holds are never written. -/
+def dispatchOnly : List (String × String) := [("pass", "Compile"), ("pass", "Verify")]
+
+def ownWrite (e : Ev) : Bool :=
+  (e.1 == "store" || e.1 == "append") &&
+    ["var", "pass.concat", "[]pass.Interface", "*pass.concat", "*pass.Interface", "*[]pass.Interface"].contains e.2.2
+
+/-- Rows known to be benign, with the reason:
+* `gotypes.Sizes` / store `[]int64`: `(*Signature).init` adds the size of the parameters to the offsets
+  returned by `Sizes.Offsetsof`, which go/types allocates afresh on every call (the analysis lets a
+  function it cannot see return memory of its receiver);
+* `x86.forms`, `opcformstable`, `isaslisttable`, `sffxsstringsmap`, `sffxsclssuffixessettable` / returns:
+  the generated instruction tables are handed out without copying (`Opcode.Forms()`-style accessors,
+  `ir.Instruction.ISA`, `.Suffixes` alias rows of the tables); no function of the generation path writes
+  them (there is no store / append / mutator row for these variables — that is this obligation). -/
+def knownRows : List ((String × String) × Ev) :=
+  [(("gotypes", "Sizes"), ("store", "", "[]int64")),
+   (("x86", "forms"), ("returns", "", "[]x86.form")),
+   (("x86", "opcformstable"), ("returns", "", "[]x86.form")),
+   (("x86", "isaslisttable"), ("returns", "", "[]string")),
+   (("x86", "sffxsstringsmap"), ("returns", "", "[]string")),
+   (("x86", "sffxsclssuffixessettable"), ("returns", "", "map[x86.sffxs]bool"))]
+
+def eventOk (v : String × String) (e : Ev) : Bool :=
+  benignEvent e || designState.contains v || (dispatchOnly.contains v && !ownWrite e) || knownRows.contains (v, e)
+
+def groupOk (g : List (String × String) × List Ev) : Bool := g.1.all fun v => g.2.all fun e => eventOk v e
+
+/-- **No unexplained process-level state**: every way in which memory reachable from a package-level
+variable of the generation path can be written (or escape) after initialisation is one of the explained
+ones. -/
+theorem globals_expected :
+    ∀ g ∈ Avo.Gen.globalEventGroups, ∀ v ∈ g.1, ∀ e ∈ g.2, eventOk v e = true := by
+  have h : Avo.Gen.globalEventGroups.all groupOk = true := by decide +kernel
+  intro g hg v hv e he
+  have h1 := List.all_eq_true.mp h g hg
+  exact List.all_eq_true.mp (List.all_eq_true.mp h1 v hv) e he
+
+/-- Non-vacuity of the census: it sees the package-level variables (more than a hundred: the registers),
+thousands of functions, and it does find the one piece of state that exists by design, with writes. -/
+theorem globals_census_nonvacuous :
+    Avo.Gen.globalCensusSize.1 > 100 ∧ Avo.Gen.globalCensusSize.2.2 > 1000 ∧
+    (Avo.Gen.globalEventGroups.any fun g => g.1.contains ("build", "ctx") && g.2.contains ("store", "", "ir.Function")) = true := by
+  decide +kernel
+
+-- the obligation is not trivially true: the rows a shared, lazily built, in-place sorted list of register
+-- ids of a family would add are all rejected
+example : eventOk ("reg", "Vector") ("store", "", "reg.Family") = false := by decide
+example : eventOk ("reg", "Vector") ("extern", "sort", "Slice") = false := by decide
+example : eventOk ("reg", "familiesByKind") ("extern", "sync", "(*Once).Do") = false := by decide
+example : eventOk ("reg", "GeneralPurpose") ("returns", "", "[]reg.ID") = false := by decide
+example : eventOk ("pass", "Compile") ("append", "", "pass.concat") = false := by decide
+example : eventOk ("printer", "counter") ("store", "", "var") = false := by decide
+
+/-- Sources of run-to-run variation that are not memory: clocks, random numbers, the environment,
+process identity, the scheduler. -/
+def variationSource (c : String × String) : Bool :=
+  ["time", "math/rand", "math/rand/v2", "crypto/rand", "hash/maphash", "unique", "os/user", "os/signal"].contains c.1 ||
+  [("os", "Getenv"), ("os", "LookupEnv"), ("os", "Environ"), ("os", "ExpandEnv"), ("os", "Getpid"), ("os", "Getppid"),
+   ("os", "Hostname"), ("os", "Getuid"), ("os", "Geteuid"), ("os", "Getgid"), ("os", "UserHomeDir"), ("os", "UserCacheDir"),
+   ("os", "UserConfigDir"), ("os", "TempDir"), ("os", "MkdirTemp"), ("os", "CreateTemp"), ("os", "Executable"),
+   ("runtime", "NumGoroutine"), ("runtime", "NumCPU"), ("runtime", "GOMAXPROCS"), ("runtime", "ReadMemStats"),
+   ("runtime", "Stack"), ("runtime", "GC"), ("runtime", "SetFinalizer"), ("runtime", "Gosched")].contains c
+
+/-- None of the functions called from the generation path (and defined outside it) is a source of
+run-to-run variation. -/
+theorem no_variation_sources : ∀ c ∈ Avo.Gen.externCallees, variationSource c = false := by
+  have h : Avo.Gen.externCallees.all (fun c => !variationSource c) = true := by decide +kernel
+  intro c hc
+  have := List.all_eq_true.mp h c hc
+  simpa using this
+
+example : variationSource ("time", "Now") = true := by decide
+example : Avo.Gen.externCallees ≠ [] := by decide
 
 end Avo.Determinism
